@@ -95,7 +95,10 @@ class Worker:
             stub = stackscope.extract_child(self.pg, for_task=True)
         except RuntimeError:
             return ["obs", "guard-error"]
-        full = stackscope.extract_child(self.pg, for_task=False)
+        try:
+            full = stackscope.extract_child(self.pg, for_task=False)
+        except RuntimeError:
+            return ["obs", "stub-outside-any-extraction", "guard-error"]
         a = "stub" if not stub.frames and stub.root is self.pg else ("full" if stub.frames else "odd")
         b = "contexts" if full.frames and full.frames[0].contexts else "bare"
         if not full.frames:
@@ -117,7 +120,13 @@ class Worker:
         self.depth = 0
         with warnings.catch_warnings():
             warnings.simplefilter("ignore")
-            self.loop(0)
+            try:
+                self.loop(0)
+            except SystemExit:
+                raise
+            except BaseException as ex:
+                # never leave the controller waiting for a dead thread
+                self.reports.put(["worker-died", repr(ex)[:300]])
 
 
 WORKERS = {}
@@ -183,6 +192,8 @@ def main():
         if bad:
             bad["behaviour"] = bi
             out["mismatches"].append(bad)
+            if len(out["mismatches"]) >= 5:
+                break
     json.dump(out, open(sys.argv[2], "w"))
 
 
